@@ -141,3 +141,27 @@ Print Assumptions C18_bounded_bfs.
 Theorem C18_bounded_bellman_ford : forall g, In g wgraphs_le4 -> ok_bf g = true.
 Proof. exact bounded_bf. Qed.
 Print Assumptions C18_bounded_bellman_ford.
+
+(* bellman_ford, UNBOUNDED (partial correctness, integer weights of either sign): on every weighted directed graph of
+   any size with column indices below n and every list of centres below n, WHENEVER the kernel model returns (its loop
+   ran until a pass changed nothing -- with a negative cycle it never does),
+     - every finite distance d[v] is the weight of a walk to v from centre number m[v] (which is one of the centres),
+     - for every centre c and every walk from c to v of weight L, v has a finite distance d[v] <= L:
+   d is the shortest-walk distance to the nearest centre and m names a centre that attains it; unreachable vertices
+   keep the distance "infinity".  (That the n+2 passes of fuel suffice for nonnegative weights is the bounded
+   theorem above and the correspondence.) *)
+Require Import PV.Proofs.BfProofs.
+Theorem C18_bellman_ford_shortest_paths : forall (N : nat) (Ap Aj Ax centers : list Z),
+  (forall i, 0 <= i < Z.of_nat N -> forall jj, get Ap i <= jj < get Ap (i + 1) -> 0 <= get Aj jj < Z.of_nat N) ->
+  (forall c, In c centers -> 0 <= c < Z.of_nat N) ->
+  forall d m p, bellman_ford (Z.of_nat N) Ap Aj Ax centers = Some (d, m, p) ->
+  (forall v x, 0 <= v < Z.of_nat N -> getd d v = Some x ->
+     In (cen centers (get m v)) centers /\ walk N Ap Aj Ax (cen centers (get m v)) v x) /\
+  (forall c v L, In c centers -> walk N Ap Aj Ax c v L -> 0 <= v < Z.of_nat N /\ exists x, getd d v = Some x /\ x <= L).
+Proof. exact bellman_ford_correct. Qed.
+Print Assumptions C18_bellman_ford_shortest_paths.
+(* non-vacuity: a directed weighted graph with two centres (0 and 3), a zero-weight edge and an unreachable vertex *)
+Example C18_bellman_ford_example :
+  bellman_ford 5 [0; 2; 3; 4; 5; 5] [1; 2; 2; 1; 2] [4; 1; 0; 7; 3] [0; 3] =
+    Some ([Some 0; Some 4; Some 1; Some 0; None], [0; 0; 0; 1; -1], [-1; 0; 0; -1; -1]).
+Proof. vm_compute. reflexivity. Qed.
